@@ -4,7 +4,7 @@ translator validation against the real functions; L1 model of the capacity opera
 container; oracle = the property predicate evaluated on the real code (index enumeration + address stability)."""
 import os, sys, bisect
 
-GEN = ['gen_log2_64.json', 'gen_log2_32.json', 'gen_segsqrt.json', 'gen_segcnst.json', 'gen_arr_sqrt.json', 'gen_arr_cnst.json']
+GEN = ['gen_log2_64.json', 'gen_log2_32.json', 'gen_segsqrt.json', 'gen_segcnst.json', 'gen_arr_sqrt.json', 'gen_arr_cnst.json', 'gen_arr_log.json']
 M64 = 2 ** 64
 PAR = 8
 
@@ -181,6 +181,20 @@ def gen_hist_cases(ctx, scale):
         cases.append('hist2 %s %d %s' % (F, L, ' '.join(toks)))
     return cases
 
+def gen_chk_cases(ctx, scale):
+    """the FAILING side of the three MOMO_CHECKs, executed in forked children: AddBackNogrow on a full array, operator[](count),
+    RemoveBack(count + 1) must abort inside SegmentedArray's own check (theorem C16_arr_checks_stuck on the regenerated code)"""
+    r = ctx.rng; cases = []
+    for F in ('sq', 'cn'):
+        for L in (0, 3, 5):
+            b = boundaries(F, L, 400)
+            ns = sorted(set([0, 1, 2] + [x + d for x in b[:8] for d in (-1, 0, 1) if x + d >= 0] + [r.below(300) for _ in range(2 * scale)]))
+            for what in ('nogrow', 'index', 'removeback'):
+                for n in ns[:10 + 4 * scale]:
+                    cases.append('chk %s %d %s %d' % (F, L, what, n))
+    return cases
+CHK_FUNC = {'nogrow': 'AddBackNogrowCrt', 'index': 'pvGetItem', 'removeback': 'RemoveBack('}
+
 def gen_ghist_cases(ctx, scale):
     """histories over the operations whose REAL bodies are translated by cxx2coq (Gen_ArrSqrt): AddBackCrt, Reserve, SetCountCrt
     (pvIncCount / pvDecCount), Shrink(), Shrink(c), Clear(shrink), RemoveBack = pvDecCount"""
@@ -329,6 +343,10 @@ def oracle(ctx, cases, lines):
             elif w[0] in ('sqx', 'cnx'):
                 L, s, j = int(w[1]), int(w[2]), int(w[3]); i, s2, j2 = map(int, out.split())
                 if (s2, j2) != (s, j): bad.append((c, out, 'GetSegItemIndexes(GetIndex(%d,%d)) = (%d,%d)' % (s, j, s2, j2)))
+            elif w[0] == 'chk':
+                if not (out.startswith('aborted') and 'SegmentedArray.h' in out and CHK_FUNC[w[3]] in out):
+                    bad.append((c, out[:200], 'out-of-domain call (%s on %s elements) did not fail in the MOMO_CHECK of SegmentedArray::%s' % (w[3], w[4], CHK_FUNC[w[3]].rstrip('('))))
+                ctx.nontrivial.add(c)
             elif w[0] in ('hist', 'hist2'):
                 if 'FAIL' in out or not out.strip():
                     bad.append((c, out[-200:], 'history on the real container: ' + (out.split('FAIL:')[-1] if 'FAIL' in out else 'no output')))
@@ -463,7 +481,8 @@ def run(ctx):
         hcases = hcases + gen_hist_cases(ctx, 6)
         if scale == 1:
             icases = icases + [c for c in gen_index_cases(ctx, 2) if c[2] != 'r']
-    cases = icases + hcases
+    ccases = gen_chk_cases(ctx, scale)
+    cases = icases + hcases + ccases
     path = os.path.join(ctx.build, 'oracle.cases')
     open(path, 'w').write('\n'.join(cases) + '\n')
     rc, lines, err = ctx.run_lines(par + [harness], path, timeout=3000)
@@ -477,7 +496,7 @@ def run(ctx):
         ctx.violation(why, {'case': c, 'impl_output': out, 'cmd': 'echo "%s" | build/C16/harness' % c}, found_input=True)
     for c in (icases[::max(1, len(icases) // 3)][:3] + hcases[:3]):
         ctx.add_sample(c[:300])
-    kinds = ('lg64', 'lg32', 'sqr', 'cnr', 'sqs', 'sqx', 'cnx', 'sq ', 'cn ', 'hist sq ', 'hist cn ', 'hist sqw', 'hist cnw', 'hist2 sq ', 'hist2 cn ', 'hist2 sqw', 'hist2 cnw')
+    kinds = ('lg64', 'lg32', 'sqr', 'cnr', 'sqs', 'sqx', 'cnx', 'sq ', 'cn ', 'hist sq ', 'hist cn ', 'hist sqw', 'hist cnw', 'hist2 sq ', 'hist2 cn ', 'hist2 sqw', 'hist2 cnw', 'chk')
     gh = ctx.coverage.get('input_distribution', {}).get('ghist', 0)
     ctx.coverage['input_distribution'] = {k.strip(): sum(1 for c in cases if c.startswith(k)) for k in kinds}
     ctx.coverage['input_distribution']['ghist (generated container functions vs real)'] = gh
